@@ -278,13 +278,12 @@ def run_property(prop, tier=None, seed=None):
         prop, tier, seed, merged["evaluations"], merged["distinct_nontrivial"],
         len(unknown), sum(n for _, n, _ in known_hit.values()), wall))
     if unknown:
-        seen = set()
+        per_label = Counter()
         n = 0
         for v in unknown:
-            sig = (v["label"], json.dumps(v.get("features", {}), sort_keys=True))
-            if sig in seen and n >= 5:
+            per_label[v["label"]] += 1
+            if per_label[v["label"]] > 3:
                 continue
-            seen.add(sig)
             n += 1
             path = write_replay(prop, v, n)
             print("VIOLATION property=%s replay=%s label=%s case=%s observed=%s expected=%s" % (
